@@ -88,7 +88,19 @@ let handle = function
             | EmitBase32 t -> "X " ^ shex t ^ " -> " ^ d))
   | ["emission"; a; cur; n] -> ostr string_of_z (int_emission (bool_of_string a) (z_of_string cur) (z_of_string n))
   | ["scalareq"; a; b] -> string_of_bool (scalar_eq (scalar_of a) (scalar_of b))
-  | "keyeq" :: fx :: os :: r ->
+  | "keyeq" :: fx :: guard :: r ->
+      (* the key function of the tree: top_key2 (float sign in the leaf key fx; frozenset = first
+         item key per value, guard = multiplied tuples among frozenset items are not pooled) *)
+      let (t1, r) = parse_top r in
+      let (t2, r) = (match r with "|" :: r' -> parse_top r' | _ -> failwith "sep") in
+      if r <> [] then failwith "trailing" else
+      let fx = bool_of_string fx and guard = bool_of_string guard in
+      let w = string_of_bool (wf_top2 t1 && wf_top2 t2) in
+      let m = string_of_bool (top_has_mult t1 || top_has_mult t2) in
+      (match top_key2 fx guard t1, top_key2 fx guard t2 with
+       | Some k1, Some k2 -> "K " ^ string_of_bool (key_eq k1 k2) ^ " " ^ string_of_bool (key_eq k2 k1) ^ " mult " ^ m ^ " wf " ^ w
+       | _, _ -> "NOKEY mult " ^ m ^ " wf " ^ w)
+  | "keyeq_old" :: fx :: os :: r ->
       let (t1, r) = parse_top r in
       let (t2, r) = (match r with "|" :: r' -> parse_top r' | _ -> failwith "sep") in
       if r <> [] then failwith "trailing" else
